@@ -156,10 +156,10 @@ def _client_vs_raw_server(on_request, client_kw, sess=None):
         res['acc'] = await rawpeer.raw_listen(
             '127.0.0.1', 2222, on_conn, server_host_keys=[hostkey()])
         try:
-            conn = await asyncssh.connect(
-                '127.0.0.1', 2222, known_hosts=None, config=None,
-                client_keys=None, username='u', client_factory=Cli,
-                **client_kw)
+            kw = dict(known_hosts=None, config=None, client_keys=None,
+                      username='u', client_factory=Cli)
+            kw.update(client_kw)
+            conn = await asyncssh.connect('127.0.0.1', 2222, **kw)
             res['conn'] = conn
             if sess is not None:
                 return await sess(conn)
@@ -217,6 +217,43 @@ def ext_info_client(cls, n):
             conn.raw_send(52, b'')
 
     return _client_vs_raw_server(on_request, {})
+
+
+def hostkeys_tail(p, a):
+    """Part "loops", loop "keylist" (connection.py _finish_hostkeys: `while
+    packet:` over the key list of a hostkeys-00@openssh.com request): one
+    genuine key followed by `a` more bytes - 1..3 stray bytes (less than a
+    length prefix), or a complete prefix announcing p bytes of which none is
+    there (p = 0: an empty entry).  Every iteration must consume input or
+    end the loop."""
+    hk = hostkey()
+    body = String(hk.public_data)
+    if 1 <= a <= 3:
+        body += bytes([p] * a)
+    elif a == 4:
+        body += UInt32(p)
+    updates = []
+
+    def handler(added, removed, retained, revoked):
+        updates.append((len(added), len(removed), len(retained),
+                        len(revoked)))
+
+    def on_request(conn, t, payload):
+        if t == 5:
+            conn.raw_send(6, String(b'ssh-userauth'))
+        elif t == 50:
+            conn.raw_send(52, b'')
+            conn.raw_send(80, String(b'hostkeys-00@openssh.com') +
+                          Boolean(False) + body)
+
+    async def sess(conn):
+        await asyncio.sleep(0.5)
+        return 'ok', f'handler calls {updates}'
+
+    return _client_vs_raw_server(
+        on_request,
+        dict(known_hosts=([hk.convert_to_public()], [], []),
+             server_host_keys_handler=handler), sess=sess)
 
 
 def _server_vs_raw_client(script, server_kw=None, server_cls=None):
